@@ -153,6 +153,40 @@ def check_C17(tier, seed):
         ["limb arithmetic (Big.tla) refines integer arithmetic: model-checked in MC_Ledger with base 4", "the scalar encoding is crate-private and is exercised through allow_payment (accept for the proven amount, clean refusal otherwise)"])
 
 
+def check_C18(tier, seed):
+    import lib_checks
+    t0 = time.time()
+    build_harness()
+    ms = [tlc_model("Rng", "MC_Rng.cfg", workers=4, name="mc_rng", must_cover=["NonceDraw", "KeyDraw"]),
+          tlc_model("MC_ZkAbacus", "MC_ZkAbacus_quick.cfg", workers=8, name="mc_C18")]
+    ev = lib_checks.run_lib("C18", "c18", tier, seed, "Trace_Rng", lambda e: True)
+    return lib_checks.lib_evidence("C18", tier, seed, ms, ev,
+        "one evaluation = Nonce::new on a stream beginning with k = 0..3 draws congruent to the close tag (close tag + j*q as 64-byte values, j = 0..); Requested::new / Ready::start with such a draw at every "
+        "scalar-draw position; decoding of the close tag as nonce; a pay token presented as closing signature for the close state sharing its fields and a closing signature used as pay token (library "
+        "paths and independent PS evaluation on both message layouts); channel-id derivation with each of the five inputs changed alone (bytes, same-length changes, extension, truncation, empty) and print/parse; "
+        "distinct = (event kind, case)",
+        "tlc Rng (NonceNeverClose DrawCount Terminates) + MC_ZkAbacus (TagSeparation) + Trace_Rng on harness executions", t0,
+        lambda e: json.dumps({k: e[k] for k in e if k in ("ev", "close_prefix", "multiple_of_q_added", "call", "pos", "j", "case", "input", "variant", "history")}, sort_keys=True),
+        ["channel ids are modelled as a hash of the literal concatenation of the inputs: moving bytes between the two account-info inputs changes two inputs and is not claimed",
+         "SHA3-256 collision resistance"])
+
+
+def check_C19(tier, seed):
+    import lib_checks
+    t0 = time.time()
+    build_harness()
+    ms = [tlc_model("Rng", "MC_Rng.cfg", workers=4, name="mc_rng", must_cover=["NonceDraw", "KeyDraw"]),
+          tlc_model("PSig", "MC_PSig_N1.cfg", workers=8, name="mc_psig_c19")]
+    ev = lib_checks.run_lib("C19", "c19", tier, seed, "Trace_Rng", lambda e: True)
+    return lib_checks.lib_evidence("C19", tier, seed, ms, ev,
+        "one evaluation = KeyPair<N>::new (N in {1,2,3,5,8,13}), PedersenParameters::new (G1, G2), RangeConstraintParameters::new or merchant::Config::new on a stream with an all-zero window at every "
+        "scalar-draw offset (widths 1..2, 3 thorough): secret scalars non-zero, public elements non-identity, G1/G2 halves share logarithms (pairings and scalar multiples), the value passes the library's own "
+        "decoder, a signature made with the key verifies, every digit signature is valid and uses a fresh base, validate() is Ok; distinct = (generator, offset, width)",
+        "tlc Rng (KeyScalarsNonZero DrawCount Terminates) + PSig (keys with non-zero scalars) + Trace_Rng on harness executions", t0,
+        lambda e: (e["what"], e["offset"], e["width"]),
+        ["group-element sampling of bls12_381 never returns the identity (read in the registry source); zero windows therefore target scalar draws, and raw zero bytes for the Pedersen samplers"])
+
+
 def replay_transcript(pid, p):
     tier = p.get("tier", "quick")
     if pid == "C12":
@@ -161,5 +195,5 @@ def replay_transcript(pid, p):
         check_C06(tier, p["seed"])
 
 
-REGISTRY = {"C06": check_C06, "C12": check_C12, "C17": check_C17}
+REGISTRY = {"C06": check_C06, "C12": check_C12, "C17": check_C17, "C18": check_C18, "C19": check_C19}
 REPLAY = {"transcript": replay_transcript, "tuple": replay_transcript}
